@@ -374,7 +374,9 @@ BUFR_Tables *bufr_extract_tables( BUFR_Dataset *dts )
 
    tbls = bufr_create_tables();
    tbls->local.tableD = (EntryTableDArray)arr_create( 100, sizeof(EntryTableD *), 100 );
+   tbls->local.tableDtype = TYPE_ALLOCATED; /* these arrays belong to tbls: bufr_free_tables has to release them */
    tbls->local.tableB = (EntryTableBArray)arr_create( 100, sizeof(EntryTableB *), 100 );
+   tbls->local.tableBtype = TYPE_ALLOCATED;
 
    eb.description = NULL;
    eb.unit = NULL;
